@@ -11,7 +11,7 @@ import numpy as np
 from harness import mps_common as mc
 
 C07_SUBS = ['lat_product', 'random_unitary', 'desired_chi', 'project_sector', 'entropy_opts', 'gauge_charge',
-            'full_segment', 'bflat_inf', 'segment_env_canon', 'segment_of_segment', 'misc_ctor']
+            'full_segment', 'bflat_inf', 'segment_env_canon', 'segment_of_segment', 'misc_ctor', 'segment_history']
 C08_SUBS = ['term_list_corr', 'overlap_inf', 'overlap_ignore_form', 'translate', 'entropy_segment', 'terms_sum_inf',
             'env_terms_sum', 'corr_length', 'array_ops', 'segment_env', 'env_cache', 'transfer_matrix', 'sample_opts', 'corr_defaults']
 C09_SUBS = ['local_term_opts', 'swap_ops', 'compute_K', 'perturb', 'compress_inf', 'compress_var', 'enlarged_segment',
@@ -442,6 +442,85 @@ def eval_c07(case):
             back = np.tensordot(np.tensordot(Ud, th1, axes=(1, 0)), Vd, axes=(-1, 0))
             o.close('theta', back, th0, tol=1e-8)
             o.true('boundaries-stored', seg.segment_boundaries[0] is not None)
+    elif sub == 'segment_history':
+        # a segment MPS denotes  norm * U_L . theta . V_R  in the Schmidt bases of the state it was cut out of
+        # ((U_L, V_R) = segment_boundaries, identity before the first canonical_form_finite).  This must survive a
+        # HISTORY of canonicalisations: non-unitary one-site operators anywhere (both ends included) and explicit
+        # canonical_form_finite(renormalize=True/False); checked after every step, together with the overlap with the
+        # untouched copy and an MPSEnvironment expectation value.
+        from harness.C08 import plain_ops
+        if rnd.random() < 0.3:
+            parent, ci = rand_infinite(rnd, kinds=rnd.choice([('SpinHalf', None), ('Spin1', None), ('SpinHalf', 'parity'), ('Fermion', 'parity')]), L=rnd.randint(1, 2))
+            first = rnd.randint(0, parent.L - 1)
+            n = rnd.randint(2, 4 if parent.sites[0].dim == 2 else 3)
+            last = first + n - 1
+            hist.append('parent=infinite')
+        else:
+            kinds = rnd.choice([('SpinHalf', None), ('SpinHalf', 'Sz'), ('Fermion', 'N'), ('Spin1', 'Sz'), ('Spin1', None), ('Fermion', 'parity')])
+            parent, v_, ci = rand_finite(rnd, kinds=kinds, L=rnd.randint(5, 6), normalize=True)
+            first = rnd.randint(0, 2)
+            last = rnd.randint(first + 1, max(first + 1, parent.L - 1 - rnd.randint(0, 2)))
+            n = last - first + 1
+            hist.append('parent=finite')
+        seg = parent.extract_segment(first, last)
+        seg.norm = rnd.choice([1.0, 1.0, 0.5, 2.0])
+        seg0 = seg.copy()
+
+        def denoted(x):
+            t = mc.np_theta(x, 0, n) * x.norm
+            U, V = x.segment_boundaries
+            if U is not None:
+                t = np.tensordot(U.itranspose(['vL', 'vR']).to_ndarray(), t, axes=(1, 0))
+                t = np.tensordot(t, V.itranspose(['vL', 'vR']).to_ndarray(), axes=(-1, 0))
+            return t
+
+        def neutral_op(st, unitary):
+            names = [nm for nm in plain_ops(st) if np.all(st.get_op(nm).qtotal == 0)]
+            pick = rnd.sample(names, min(2, len(names)))
+            A_ = sum(rnd.uniform(0.3, 1.5) * st.get_op(nm).to_ndarray() for nm in pick).astype(complex)
+            if unitary:
+                from scipy.linalg import expm
+                return expm(1j * (A_ + A_.conj().T) / 2), 'exp(i(%s))' % '+'.join(pick)
+            A_ = A_ + rnd.uniform(0.5, 1.5) * np.eye(st.dim) + (1j * rnd.uniform(-0.5, 0.5) * A_ if rnd.random() < 0.3 else 0)
+            return A_, 'Id+' + '+'.join(pick)
+
+        T0 = denoted(seg0)
+        T = T0.copy()
+        steps = []
+        k = rnd.randint(2, 4)
+        ok = True
+        for step in range(k):
+            kind = rnd.choice(['op', 'op', 'op', 'canon'])
+            pos = rnd.choice([0, n - 1, n - 1, rnd.randrange(n)])     # both ends often: non-trivial outer gauges
+            st = seg.sites[pos]
+            if kind == 'op':
+                M, nm = neutral_op(st, False)
+                ren = rnd.random() < 0.3
+                seg.apply_local_op(pos, npc.Array.from_ndarray(M, [st.leg, st.leg.conj()], labels=['p', 'p*'], dtype=complex), unitary=False, renormalize=ren)
+                T2 = np.moveaxis(np.tensordot(M, T, axes=(1, pos + 1)), 0, pos + 1)
+                T = T2 / np.linalg.norm(T2) * np.linalg.norm(T) if ren else T2
+                steps.append('%s@%d%s' % (nm, pos, ',renormalize' if ren else ''))
+            else:
+                M, nm = neutral_op(st, True)
+                seg.apply_local_op(pos, npc.Array.from_ndarray(M, [st.leg, st.leg.conj()], labels=['p', 'p*'], dtype=complex), unitary=True)
+                T = np.moveaxis(np.tensordot(M, T, axes=(1, pos + 1)), 0, pos + 1)
+                ren = rnd.random() < 0.5
+                seg.canonical_form_finite(renormalize=ren)
+                steps.append('%s@%d,canonical_form_finite(renormalize=%s)' % (nm, pos, ren))
+            tag = '[after %d canonicalisation%s]' % (min(step + 1, 2), 's or more' if step >= 1 else '')
+            detail = 'segment %d..%d of %s, steps %s' % (first, last, hist[0], steps)
+            ok = o.close('denoted-tensor' + tag, denoted(seg), T, tol=1e-8, detail=detail) and ok
+            ok = o.close('overlap' + tag, [seg0.overlap(seg)], [np.vdot(T0.ravel(), T.ravel())], tol=1e-8, detail=detail) and ok
+            j = rnd.randrange(n)
+            Mj, nmj = neutral_op(seg.sites[j], False)
+            opj = npc.Array.from_ndarray(Mj, [seg.sites[j].leg, seg.sites[j].leg.conj()], labels=['p', 'p*'], dtype=complex)
+            want = np.vdot(T0.ravel(), np.moveaxis(np.tensordot(Mj, T, axes=(1, j + 1)), 0, j + 1).ravel())
+            got = MPSEnvironment(seg0, seg).expectation_value(opj, sites=[j])
+            ok = o.close('env-expectation' + tag, got, [want], tol=1e-8, detail=detail + ' op %s@%d' % (nmj, j)) and ok
+            o.true('norm_test' + tag, np.max(seg.norm_test()) < 1e-8, detail)
+            if not ok:
+                break
+        hist.append('steps=%d' % k)
     elif sub == 'segment_of_segment':
         psi, v, c = rand_finite(rnd, L=5)
         seg = psi.extract_segment(1, 4)
